@@ -7,9 +7,12 @@ import (
 	"os"
 )
 
-// verifC17Case builds a file of k one-byte chunks (+delta bytes) and an index whose
-// chunk IDs are the real digests, except that the first ID byte of chunk j is xor-ed with flip.
-func verifC17Case(k, delta int, j int, flip uint8) (string, Index) {
+// verifC17Case builds a file of k one-byte chunks (+delta bytes) and an index over it.  The
+// contents follow a pattern (0: all chunks distinct, 1: equal neighbours in pairs, 2: all chunks
+// equal - indexes of repetitive files carry the same ID many times).  Chunk j is damaged either
+// in the index (first ID byte xor-ed with flip) or in the file (its byte xor-ed with flip
+// after indexing).
+func verifC17Case(k, delta int, j int, flip uint8, pattern int, inFile bool) (string, Index) {
 	dir := vTempDir()
 	name := dir + "/blob"
 	l := k + delta
@@ -18,24 +21,37 @@ func verifC17Case(k, delta int, j int, flip uint8) (string, Index) {
 	}
 	// concrete contents: the batching under test does not depend on them, and concrete
 	// digests keep the uninterpreted hash (and its pairwise collision axioms) out of the queries
-	data := make([]byte, l)
-	for c := range data {
-		data[c] = byte(c*7 + 1)
-	}
-	if err := os.WriteFile(name, data, 0644); err != nil {
-		panic(err)
+	orig := make([]byte, l)
+	for c := range orig {
+		switch pattern {
+		case 0:
+			orig[c] = byte(c*7 + 1)
+		case 1:
+			orig[c] = byte(c/2*7 + 1)
+		default:
+			orig[c] = 0x55
+		}
 	}
 	idx := Index{Index: FormatIndex{FeatureFlags: CaFormatSHA512256, ChunkSizeMin: 1, ChunkSizeAvg: 1, ChunkSizeMax: 1}}
 	for c := 0; c < k; c++ {
 		var b []byte
 		if c < l {
-			b = data[c : c+1]
+			b = orig[c : c+1]
 		} else {
 			b = []byte{vU8("missing")} // the indexed blob was longer than the file
 		}
 		id := ChunkID(Digest.Sum(b))
-		id[0] ^= vIteU8(j == c, flip, 0)
+		if !inFile {
+			id[0] ^= vIteU8(j == c, flip, 0)
+		}
 		idx.Chunks = append(idx.Chunks, IndexChunk{ID: id, Start: uint64(c), Size: 1})
+	}
+	data := append([]byte(nil), orig...)
+	if inFile && j < len(data) {
+		data[j] ^= flip // j is concrete in this mode (see VerifC17_Batches): one symbolic byte, the rest of the file stays concrete
+	}
+	if err := os.WriteFile(name, data, 0644); err != nil {
+		panic(err)
 	}
 	return name, idx
 }
@@ -99,11 +115,20 @@ func VerifC17_Batches() {
 	}
 	c := cfgs[vChoose("config", len(cfgs))]
 	vPreempt(0) // schedules are the subject of VerifC17_SmallAllPositions; here: every batch shape x every position
-	j := vInt("damaged")
-	vAssume(j >= 0 && j < c.k)
+	inFile := vChoose("damage-in-file", 2) == 1
+	pattern := 0
+	var j int
+	if inFile {
+		vSchedFixed(true)                       // which worker takes which batch does not change what a batch checks
+		pattern = vChoose("content-pattern", 3) // repetitive files: the same ID several times in one batch
+		j = vChoose("damaged-position", c.k)    // every position, one by one
+	} else {
+		j = vInt("damaged")
+		vAssume(j >= 0 && j < c.k)
+	}
 	flip := vU8("flip")
 	vAssume(flip != 0)
-	name, idx := verifC17Case(c.k, 0, j, flip)
+	name, idx := verifC17Case(c.k, 0, j, flip, pattern, inFile)
 	err := VerifyIndex(context.Background(), name, idx, c.n, NullProgressBar{})
 	vCover("VerifyIndex-returned")
 	vAssert(err != nil, "a damaged chunk was not noticed (batching skipped it?)")
